@@ -6,15 +6,25 @@ Decided:
                      (automata product over all valid-UTF-8 strings, engine regexlang; shortest counter-example
                      printed)
   R2 one regex       the literal macro generated for the type carries the same regex constant
-  R3 acceptor        Deserialize = String -> parse::<T>; the tuple constructor is used only under the `true`
-                     edge of the regex match in from_str and in new_unchecked; new_unchecked is only called
-                     from expansions of the literal macro; regex errors count as non-match
-  R4 proc-macro      verify_regex selects the matched expression on the true edge of is_match(..).unwrap_or(false);
+  R3 acceptor        Deserialize: the success payload of deserialize is from_str / parse::<T> applied to the success payload
+                     of String::deserialize (normal form of the returned value); the tuple constructor is used only in
+                     from_str and new_unchecked, and in from_str every path to it decides `is_match(Regex::new(<lit>)?, input)
+                     == Ok(true)`; new_unchecked is only called from expansions of the literal macro; regex errors count
+                     as non-match
+  R4 proc-macro      every place in verify_regex (or a private helper of it) that picks expression_when_matched /
+                     _unmatched is classified by the path conditions leading to it: matched <=> is_match == Ok(true) on all
+                     paths, unmatched <=> excluded on all paths (unwrap_or(false), matches!, match arms alike);
                      the literal macro's unmatched expression is compile_error!
   R5 identity        stored string <- input slice; Display writes field 0; Serialize is the transparent newtype
-  R6 versions        BuildpackVersion: split on '.', exactly 3 parts, leading-zero rejection, integer parse guarded
-                     against a sign; BuildpackApi: split_once('.'), default minor "0", both parts parsed under the
-                     same guard, errors rejected; Display templates in field order
+  R6 versions        stated on the *validator* of each type (everything TryFrom<String> may enter in the crate: closures,
+                     private helpers, fn items) and on the path conditions of its integer parses (C09_helpers.PathConds:
+                     `||` chains, named booleans, early returns, bool::then closures, guards at the call sites of private
+                     helpers): every parse is guarded by a digits-only / no-sign test of the parsed string and, for
+                     BuildpackVersion, by !(starts_with('0') && != "0"); split on '.', exactly 3 components all of which are
+                     validated (collect::<Option<Vec<_>>> + length 3, or three validated pulls from one iterator and a
+                     fourth pull that is None); BuildpackApi: the parsed strings are the halves of split_once('.') with
+                     (value, "0") as the default; Deserialize = try_from(String::deserialize(d)?) in normal form; Display
+                     templates in field order
 Not decided: the u64 overflow boundary; display/parse being inverse for all triples (core formatting trusted).
 """
 import json
@@ -22,9 +32,11 @@ import os
 import re
 import subprocess
 from .lib.guards import conditions
+from .lib.mir import op_place
 from .lib.paths import strip
 from .lib.tables import arm_defs
-from .lib.value import vstr, walk
+from .lib.value import canon, vstr, walk
+from . import C09_helpers as H
 
 VER = 'libcnb_data::buildpack::version::BuildpackVersion'
 API = 'libcnb_data::buildpack::api::BuildpackApi'
@@ -60,29 +72,9 @@ def regex_in_from_str(prog, sl, f):
     return res
 
 
-def digit_guard(prog, sl, fn, bb, parsed_value):
-    """is the block guarded by a digits-only / no-sign test of the parsed string"""
-    for cd in conditions(fn, bb, sl):
-        if cd.kind != 'bool' or cd.value[0] != 'call':
-            continue
-        n = cd.value[1]
-        if n == 'std::iter::Iterator::all' and cd.outcome is True and len(cd.value[2]) == 2:
-            src, cl = strip(cd.value[2][0]), strip(cd.value[2][1])
-            if src[0] == 'call' and src[1] in ('core::str::<impl str>::bytes', 'core::str::<impl str>::chars') and strip(src[2][0]) == strip(parsed_value):
-                if cl[0] == 'closure' and cl[1] in prog.fns:
-                    body = prog.fns[cl[1]]
-                    bv = strip(sl.local(body, 0))
-                    if bv[0] == 'call' and bv[1].endswith('is_ascii_digit') and strip(bv[2][0])[0] == 'param':
-                        return 'all(is_ascii_digit)'
-        if n == 'core::str::<impl str>::starts_with' and cd.outcome is False and strip(cd.value[2][0]) == strip(parsed_value):
-            pat = strip(cd.value[2][1])
-            if pat == ('const', '+'):
-                return "!starts_with('+')"
-    return None
-
-
 def run(ctx, rep):
     prog, sl = ctx.prog, ctx.slicer
+    PC = H.PathConds(prog, sl)
     for r, d in (('R1', 'regex language vs spec grammar (inclusion / disjointness over all strings)'), ('R2', 'FromStr regex = literal-macro regex'),
                  ('R3', 'acceptor discipline: constructor only behind the regex match; Deserialize via parse'), ('R4', 'proc-macro polarity and compile_error! on mismatch'),
                  ('R5', 'accepted value is stored, displayed and serialised unchanged'), ('R6', 'version / API parsing shape incl. sign guard')):
@@ -168,33 +160,38 @@ def run(ctx, rep):
                 # the constructor runs only when is_match(Regex::new(<literal>), <input>) is Ok(true); every spelling of
                 # "errors count as non-match" reduces to a true-branch on the success payload of that call:
                 #   Regex::new(..).and_then(|r| r.is_match(v)).unwrap_or(false)   /   match r.is_match(v) { Ok(true) => .. }
-                good = False
-                for cd in conditions(f, bi, sl):
-                    if cd.kind != 'bool' or cd.outcome is not True:
-                        continue
-                    v = cd.value
-                    if v[0] == 'call' and v[1].endswith('unwrap_or') and len(v[2]) == 2 and strip(v[2][1]) == ('const', False):
-                        v = sl.mk_unwrap(v[2][0], 1)
-                    if v[0] != 'unwrap':
-                        continue
-                    m = strip(v)
-                    if m[0] == 'call' and m[1] == 'fancy_regex::Regex::is_match' and len(m[2]) == 2:
-                        rxv, inp = m[2][0], strip(m[2][1])
+                def by_match(path, f=f):
+                    for lit in path:
+                        ml = H.match_literal(sl, lit)
+                        if ml is None or ml[1] is not True:
+                            continue
+                        rxv, inp = ml[0][2][0], strip(ml[0][2][1])
                         has_new = rxv[0] == 'unwrap' and strip(rxv)[0] == 'call' and strip(rxv)[1] == 'fancy_regex::Regex::new'
-                        good = good or (has_new and inp[0] == 'param' and inp[1] == f.path and inp[2] == 0)
+                        if has_new and inp[0] == 'param' and inp[1] == f.path and inp[2] == 0:
+                            return True
+                    return False
+                # on every path to the constructor (not only in the decisions that dominate it)
+                good = H.holds_on_all(PC.paths(f, bi), by_match)
                 rep.check(good, 'R3', t + '/guard', where, 'constructed only when Regex::new(..).and_then(is_match(value)).unwrap_or(false) is true',
                           'the constructor in from_str is not guarded by the regex match (errors must count as non-match)')
                 v = sl._rvalue(f, st[2], set(), 0, None)
                 sv = strip(dict(v[3]).get('0', ('unknown',)))
                 rep.check(sv[0] == 'param' and sv[2] == 0, 'R5', t + '/stored', where, 'stored string <- input slice, unmodified', 'stored value is ' + vstr(sv)[:80])
-        # Deserialize via parse
-        ds = prog.find(r"^<%s as .*Deserialize<'de>>::deserialize$" % re.escape(t))
+        # Deserialize via parse: the success payload of deserialize is from_str(success payload of String::deserialize(d)),
+        # read off the normal form of the returned value (`?` / and_then / map_err / match spellings coincide);
+        # a constructor or new_unchecked in its place is not a call of from_str
+        ds = prog.find(r"^<%s as .*Deserialize<'de>>::deserialize$" % re.escape(t)) or \
+            prog.find(r"Deserialize<'de> for %s>::deserialize$" % re.escape(t))
         ok = False
         if len(ds) == 1:
             rep.analysed(ds[0])
             fulls = {c.full for c in ds[0].calls if c.full}
             via_parse = any(('parse::<%s>' % t) in n for n in fulls) or any(c.res == f.path or c.name == f.path for c in ds[0].calls)
             ok = via_parse and any('for std::string::String>::deserialize' in n for n in fulls) and not any('new_unchecked' in n for n in fulls)
+            ch = H.deser_chain(prog, sl, ds[0])
+            if ch is not None and not ok:
+                conv = ch[0]
+                ok = bool(conv.full and ('parse::<%s>' % t) in conv.full) or conv.res == f.path or conv.name == f.path
         rep.check(ok, 'R3', t + '/deserialize', where, 'Deserialize = String::deserialize -> parse::<%s>' % short, 'Deserialize for %s does not go through parse' % short)
         # new_unchecked callers only from the literal macro
         mname = T['types'][t]['macro']
@@ -209,6 +206,10 @@ def run(ctx, rep):
             v = strip(sl.local(dsp, 0))
             fm = next((x for x in walk(v) if x[0] == 'fmt'), None)
             ok = fm is not None and len(fm[1]) == 1 and not isinstance(fm[1][0], str) and strip(fm[1][0])[0] == 'field' and strip(fm[1][0])[2] == '0'
+            # the same text written without a template: f.write_str(&self.0) / f.pad(&self.0) / Display::fmt(&self.0, f)
+            pcs = H.display_pieces(sl, dsp)
+            ok = ok or (pcs is not None and len(pcs) == 1 and not isinstance(pcs[0], str) and strip(pcs[0])[0] == 'field' and strip(pcs[0])[2] == '0'
+                        and strip(strip(pcs[0])[1])[0] == 'param')
         rep.check(ok, 'R5', t + '/display', where, 'Display writes the stored string', 'Display does not write field 0 verbatim')
         from .lib import serde_schema as S
         se = S.ser_struct(prog, sl, t)
@@ -216,26 +217,45 @@ def run(ctx, rep):
     # ---- R4 proc macro --------------------------------------------------------------------------------
     vr = prog.fn('libcnb_proc_macros::verify_regex')
     rep.analysed(vr)
+    # every place (in verify_regex or a private helper it calls) that picks one of the two expressions is classified by
+    # the decisions on *all* paths leading to it: P = `is_match(..) == Ok(true)` taken on every path => matched side,
+    # P excluded on every path (Ok(false), Err, `.unwrap_or(false)` false, `matches!(.., Ok(true))` false) => unmatched
     table = {}
-    for loc in range(len(vr.locals)):
-        if len(vr.whole_defs(loc)) < 2:
-            continue
-        rows = arm_defs(vr, loc, sl)
-        vals = {}
-        for bi, v, conds in rows:
-            v = strip(v)
-            if v[0] == 'field' and v[2] in ('expression_when_matched', 'expression_when_unmatched'):
-                cd = [c for c in conds if c.kind == 'bool' and c.value[0] == 'call' and c.value[1].endswith('unwrap_or')]
-                if cd:
-                    inner = strip(cd[-1].value[2][0])
-                    if inner[0] == 'call' and inner[1] == 'fancy_regex::Regex::is_match' and strip(cd[-1].value[2][1]) == ('const', False):
-                        vals[cd[-1].outcome] = v[2]
-        if vals:
-            table = vals
+    names = ('expression_when_matched', 'expression_when_unmatched')
+    for g in H.region(prog, vr):
+        for bi, b in enumerate(g.blocks):
+            for st in b['s']:
+                if st[0] != '=' or st[2]['r'] != 'use':
+                    continue
+                pl = op_place(st[2]['o'])
+                picked = [n for n in names if pl and ('.' + n) in pl[1:]]
+                if not picked or bi not in g.reachable(0):
+                    continue
+                rep.analysed(g)
+                paths = PC.paths(g, bi)
+                pol = None
+                for want in (True, False):
+                    if H.holds_on_all(paths, lambda p, want=want: any((H.match_literal(sl, l) or (None, None))[1] is want for l in p)):
+                        pol = want
+                table[pol] = picked[0] if table.get(pol, picked[0]) == picked[0] else 'both'
     rep.check(table == {True: 'expression_when_matched', False: 'expression_when_unmatched'}, 'R4', 'proc-macro/polarity', '%s:%d' % (vr.file, vr.line),
               'is_match(..).unwrap_or(false): true => matched expression, false => unmatched', 'verify_regex selects %s' % table)
     # ---- R6 versions ------------------------------------------------------------------------------------
+    # The validator of a type is everything its TryFrom<String> may enter inside the crate: closures, private helpers and
+    # fn items handed to adapters.  Guards of an integer parse are read off the path conditions of the parse site.
+    def is_int_parse(c):
+        return bool(c.full) and (c.full.endswith('parse::<u64>') or c.full == '<u64 as std::str::FromStr>::from_str')
+
+    def sign_guard(path, pv):
+        for l in path:
+            if l.kind == 'bool' and l.outcome is True and H.is_digits_test(prog, sl, l.value, pv):
+                return 'all(is_ascii_digit)'
+            if l.kind == 'bool' and l.outcome is False and H.is_starts_with(l.value, pv, '+'):
+                return "!starts_with('+')"
+        return None
+
     all_parses = {}
+    regions = {}
     for t, nparts in ((VER, 3), (API, 2)):
         tf = prog.fns.get('<%s as std::convert::TryFrom<std::string::String>>::try_from' % t)
         short = t.split('::')[-1]
@@ -244,25 +264,34 @@ def run(ctx, rep):
             continue
         rep.analysed(tf)
         where = '%s:%d' % (tf.file, tf.line)
-        fns = [tf] + prog.closures_of(tf)
+        fns = regions[t] = H.region(prog, tf)
         parses = []
         for g in fns:
             for c in g.calls:
-                if c.full and (c.full.endswith('parse::<u64>') or c.full == '<u64 as std::str::FromStr>::from_str'):
+                if is_int_parse(c):
                     parses.append((g, c))
+                    rep.analysed(g)
         all_parses[t] = parses
         rep.check(len(parses) >= 1, 'R6', short + '/parse-sites', where, '%d integer parse site(s)' % len(parses), 'no integer parse found')
         for i, (g, c) in enumerate(parses):
             pv = sl.operand(g, c.args[0])
-            gd = digit_guard(prog, sl, g, c.bb, pv)
-            rep.check(gd is not None, 'R6', '%s/sign-guard#%d' % (short, i), c.where(), 'integer parse guarded by %s' % gd,
+            paths = PC.paths(g, c.bb)
+            ok = H.holds_on_all(paths, lambda p, pv=pv: sign_guard(p, pv) is not None)
+            gd = ' / '.join(sorted({sign_guard(p, pv) for p in paths if H.consistent(p)} - {None})) if ok else None
+            rep.check(ok, 'R6', '%s/sign-guard#%d' % (short, i), c.where(), 'integer parse guarded by %s' % gd,
                       'u64::from_str accepts a leading "+": the parse of a version component is not guarded by a digits-only test, so e.g. "+1" is accepted',
                       {'function': g.path})
-        # deserialize via try_from
-        ds = prog.find(r"Deserialize<'de> for %s>::deserialize$" % re.escape(t))
-        ok = len(ds) == 1 and any(c.full and c.full.startswith('<%s as std::convert::TryFrom<std::string::String>>::try_from' % t)
-                                  for g in [ds[0]] + prog.closures_of(ds[0]) for c in g.calls) and \
+        # deserialize via try_from: success payload of deserialize = try_from(success payload of String::deserialize(d))
+        ds = prog.find(r"Deserialize<'de> for %s>::deserialize$" % re.escape(t)) or \
+            prog.find(r"^<%s as .*Deserialize<'de>>::deserialize$" % re.escape(t))
+        tfn = '<%s as std::convert::TryFrom<std::string::String>>::try_from' % t
+        ok = len(ds) == 1 and any(c.full and c.full.startswith(tfn) for g in [ds[0]] + prog.closures_of(ds[0]) for c in g.calls) and \
             any(c.full and 'for std::string::String>::deserialize' in c.full for c in ds[0].calls)
+        if len(ds) == 1:
+            rep.analysed(ds[0])
+            ch = H.deser_chain(prog, sl, ds[0])
+            # the derived `try_from = "String"` impl and a hand-written one have the same normal form
+            ok = ok or (ch is not None and bool(ch[0].full) and ch[0].full.startswith(tfn))
         rep.check(ok, 'R6', short + '/deserialize', where, 'Deserialize via TryFrom<String>', 'Deserialize does not go through try_from')
         # Display template
         dsp = prog.fns.get('<%s as std::fmt::Display>::fmt' % t)
@@ -287,15 +316,29 @@ def run(ctx, rep):
     tf = prog.fns.get('<%s as std::convert::TryFrom<std::string::String>>::try_from' % VER)
     if tf is not None:
         where = '%s:%d' % (tf.file, tf.line)
-        sp = [c for c in tf.calls if c.name == 'core::str::<impl str>::split' and strip(sl.operand(tf, c.args[1])) == ('const', '.')]
+        sp = [c for g in regions[VER] for c in g.calls if c.name == 'core::str::<impl str>::split' and strip(sl.operand(g, c.args[1])) == ('const', '.')]
         rep.check(len(sp) == 1, 'R6', 'BuildpackVersion/split', where, "split on '.'", "version is not split on '.'")
         oks = [d[1] for d in tf.whole_defs(0) if d[0] == 'stmt' and d[3]['r'] == 'agg' and d[3].get('variant') == 'Ok']
-        good = bool(oks)
+        # Two ways of establishing "exactly 3 components, each of them validated" at every Ok site:
+        #  (a) the components are collected all-or-nothing and the collection's length is compared with 3;
+        #  (b) they are pulled one by one from a single iterator `split('.').map(validate)`: the first three pulls are
+        #      Some (and their payload, the validation result, is Some), the fourth is None.
+        pl = H.pulls(sl, tf)
+        pull_rows = []
+        if pl is not None:
+            for bi in oks:
+                conds = conditions(tf, bi, sl)
+                pull_rows.append([H.pull_status(conds, tf, c) for c in pl[1]])
+        by_len = bool(oks)
         for bi in oks:
             eq = [cd for cd in conditions(tf, bi, sl) if cd.kind == 'bool' and cd.outcome is True and cd.value[0] == 'bin' and cd.value[1] == 'Eq'
                   and strip(cd.value[3]) == ('const', 3)]
-            good = good and bool(eq)
-        rep.check(good, 'R6', 'BuildpackVersion/three-parts', where, 'Ok only for exactly 3 components', 'a version with a component count other than 3 can be accepted')
+            by_len = by_len and bool(eq)
+        by_pull = bool(oks) and pl is not None and all(
+            len(row) >= 4 and all('some' in st for st in row[:3]) and 'none' in row[3] for row in pull_rows)
+        rep.check(by_len or by_pull, 'R6', 'BuildpackVersion/three-parts', where,
+                  'Ok only for exactly 3 components (%s)' % ('length == 3' if by_len else '3 pulls are Some, the 4th is None'),
+                  'a version with a component count other than 3 can be accepted')
         # every component takes part in the decision: split('.') -> map(validate) -> collect::<Option<Vec<_>>>()
         # (one invalid component rejects the whole string); adapters that silently drop or truncate components
         # (map_while, filter_map, take_while, take, skip, flatten, ...) would accept "1.2.3.x" as 1.2.3
@@ -304,41 +347,78 @@ def run(ctx, rep):
         coll = [c for c in its if c.decl.endswith('::collect')]
         all_or_nothing = names.count('map') == 1 and set(names) <= {'map', 'collect'} and len(coll) == 1 and \
             'collect::<std::option::Option<std::vec::Vec<' in (coll[0].full or '')
-        rep.check(all_or_nothing, 'R6', 'BuildpackVersion/all-components', where, 'components: split -> map(validate) -> collect::<Option<Vec<_>>>: any invalid component rejects the version',
+        pulled_all = False
+        if by_pull and not all_or_nothing:
+            stages, src = H.pipeline(pl[0])
+            pulled_all = stages == ['map'] and src[0] == 'call' and src[1] == 'core::str::<impl str>::split' and \
+                set(names) <= {'map', 'next'} and names.count('map') == 1 and \
+                all('valid' in st for row in pull_rows for st in row[:3])
+        rep.check(all_or_nothing or pulled_all, 'R6', 'BuildpackVersion/all-components', where,
+                  'components: split -> map(validate) -> %s: any invalid component rejects the version'
+                  % ('collect::<Option<Vec<_>>>' if all_or_nothing else 'three validated pulls and an exhausted iterator'),
                   'the component pipeline is %s%s: invalid or surplus components can be dropped instead of rejecting the version (e.g. "1.2.3.x" accepted as 1.2.3)'
                   % (names, '' if not coll else ' collecting into ' + (coll[0].full or '').split('collect::')[-1][:60]))
-        lz = False
-        from .lib.mir import op_place
-        for g in prog.closures_of(tf):
-            for sb, blk in enumerate(g.blocks):
-                t = blk['t']
-                if t['t'] != 'switch' or t.get('oty') != 'bool':
-                    continue
-                v = strip(sl.operand(g, t['o']))
-                if not (v[0] == 'call' and v[1].endswith(('::ne', '::eq')) and strip(v[2][1]) == ('const', '0')):
-                    continue
-                pre = any(cd.kind == 'bool' and cd.outcome is True and cd.value[0] == 'call' and cd.value[1] == 'core::str::<impl str>::starts_with'
-                          and strip(cd.value[2][1]) == ('const', '0') for cd in conditions(g, sb, sl))
-                if not pre:
-                    continue
-                # edge taken when the component starts with '0' and is not exactly "0"
-                is_ne = v[1].endswith('::ne')
-                tgt = None
-                for val, tb in t['targets']:
-                    if val == 0 and not is_ne:
-                        tgt = tb
-                if is_ne:
-                    tgt = t['else'] if [x for x, _ in t['targets']] == [0] else None
-                if tgt is None:
-                    continue
-                reach = g.reachable(tgt)
-                mine = [c for gg, c in all_parses.get(VER, []) if gg.path == g.path]
-                lz = bool(mine) and not any(c.bb in reach for c in mine)
+        # leading zero: every path to an integer parse of the validator passes `!(s.starts_with('0') && s != "0")`,
+        # i.e. contains `starts_with(s, '0') == false` or `s == "0"` for the parsed string s — however the test is
+        # spelled (`||` chains, named booleans, early return, a private predicate)
+        def no_leading_zero(path, pv):
+            return any(l.kind == 'bool' and ((l.outcome is False and H.is_starts_with(l.value, pv, '0')) or
+                                             (l.outcome is True and H.is_eq_const(l.value, pv, '0'))) for l in path)
+        mine = all_parses.get(VER, [])
+        lz = bool(mine)
+        for g, c in mine:
+            pv = sl.operand(g, c.args[0])
+            paths = PC.paths(g, c.bb)
+            tested = any(l.kind == 'bool' and H.is_starts_with(l.value, pv, '0') for p in paths for l in p)
+            lz = lz and tested and H.holds_on_all(paths, lambda p, pv=pv: no_leading_zero(p, pv))
         rep.check(lz, 'R6', 'BuildpackVersion/leading-zero', where, 'components with a redundant leading zero are rejected before parsing',
                   'leading-zero rejection (starts_with("0") && != "0" => reject) not found in front of the integer parse')
     tf = prog.fns.get('<%s as std::convert::TryFrom<std::string::String>>::try_from' % API)
     if tf is not None:
         where = '%s:%d' % (tf.file, tf.line)
-        so = [c for c in tf.calls if c.name == 'core::str::<impl str>::split_once' and strip(sl.operand(tf, c.args[1])) == ('const', '.')]
+        so = [c for g in regions[API] for c in g.calls if c.name == 'core::str::<impl str>::split_once' and strip(sl.operand(g, c.args[1])) == ('const', '.')]
         dv = [c for c in tf.calls if c.name and c.name.endswith('unwrap_or') and any(x == ('const', '0') for x in walk(sl.operand(tf, c.args[1])))]
-        rep.check(len(so) == 1 and len(dv) == 1, 'R6', 'BuildpackApi/split', where, "split_once('.') with default minor \"0\"", 'API version is not split_once(".") with default minor "0"')
+        by_unwrap_or = len(so) == 1 and len(dv) == 1
+        # semantically: the strings handed to the integer parses, re-expressed in try_from's terms, are the two halves
+        # of  split_once(value, '.')  with  (value, "0")  standing in when there is no '.'
+        by_value = False
+        if len(so) == 1 and not by_unwrap_or:
+            pairs = default_pairs(prog, sl, tf)
+            lifted = []
+            for g, c in all_parses.get(API, []):
+                for top, vals in H.lift(prog, sl, g, [sl.operand(g, c.args[0])], tf):
+                    lifted.append(canon(strip(vals[0])) if top.path == tf.path else None)
+            by_value = any(None not in lifted and set(lifted) == {canon(strip(sl._field(p, '0'))), canon(strip(sl._field(p, '1')))} for p in pairs)
+        rep.check(by_unwrap_or or by_value, 'R6', 'BuildpackApi/split', where, "split_once('.') with default minor \"0\"", 'API version is not split_once(".") with default minor "0"')
+
+
+def default_pairs(prog, sl, tf):
+    """values of tf denoting `split_once(value, '.')` with the pair (value, "0") as the default: spelled
+    `.unwrap_or((value, "0"))` or as a match / if-let / let-else whose Some arm yields the payload and whose None arm
+    yields the literal pair"""
+    def is_so(v):
+        v = strip(v) if v[0] != 'unwrap' else v
+        return v[0] == 'call' and v[1] == 'core::str::<impl str>::split_once' and len(v[2]) == 2 and strip(v[2][1]) == ('const', '.') \
+            and strip(v[2][0])[0] == 'param' and strip(v[2][0])[1] == tf.path and strip(v[2][0])[2] == 0
+
+    def is_default(v):
+        v = strip(v)
+        return v[0] == 'tuple' and len(v[1]) == 2 and strip(v[1][0])[0] == 'param' and strip(v[1][0])[1] == tf.path and strip(v[1][0])[2] == 0 \
+            and strip(v[1][1]) == ('const', '0')
+    out = []
+    for c in tf.calls:
+        if c.name and c.name.endswith('unwrap_or') and len(c.args) == 2 and is_so(sl.operand(tf, c.args[0])) and is_default(sl.operand(tf, c.args[1])):
+            out.append(sl._call_value(tf, c, set(), 0))
+    for loc in range(len(tf.locals)):
+        if len(tf.whole_defs(loc)) != 2:
+            continue
+        some = none = False
+        for bi, v, conds in arm_defs(tf, loc, sl):
+            vs = [cd for cd in conds if cd.kind == 'variant' and cd.subject is not None and is_so(cd.subject)]
+            if v[0] == 'unwrap' and is_so(v[1]) and any(cd.outcome == frozenset(['Some']) for cd in vs):
+                some = True
+            elif is_default(v) and any(cd.outcome == frozenset(['None']) for cd in vs):
+                none = True
+        if some and none:
+            out.append(sl.local(tf, loc))
+    return out
